@@ -83,8 +83,8 @@ def worker(arg):
 
 def check(tier, seed):
     t = pc.trees("plain", "san")
-    n = 200 if tier == "quick" else 2000
-    nsan = 10 if tier == "quick" else 120
+    n = 200 if tier == "quick" else 800
+    nsan = 10 if tier == "quick" else 40
     res = Result("exploration")
     res.rule = RULE
     base = seed * 1000000 + (0 if tier == "quick" else 50000) + 200000
